@@ -42,6 +42,11 @@ structure Env where
   page : Nat
   /-- which `qb_vsnprintf_serialize` (as it is now = `Ser.Cfg.repaired`) -/
   ser : Ser.Cfg
+  /-- `false` = `_blackbox_vlogger` as it is: the fixed "too long" text is serialised with
+      `QB_LOG_MAX_LEN` as its bound, whatever was reserved (defect D32: with
+      `max_line_length < 78` more is committed than was allocated).  `true` = with the proposed
+      repair fixes/D32-…: the bound is `QB_MIN(QB_LOG_MAX_LEN, t->max_line_length)`. -/
+  fixD32 : Bool
   deriving Repr
 
 /-- the fields of `struct qb_log_target` the blackbox uses -/
@@ -126,12 +131,16 @@ def maxSize (t : Target) (c : Call) : Nat := actualBase c + t.maxLine
 
 /-- the text of the record stored instead of a message that does not fit -/
 def TOO_LONG : Ser.Bytes :=
-  "Log message too long to be stored in the blackbox.  Maximum is QB_LOG_MAX_LEN".toUTF8.toList
+  "Log message too long to be stored in the blackbox.  Maximum is QB_LOG_MAX_LEN".toList.map (·.toNat.toUInt8)
 
 /-- every byte `qb_vsnprintf_serialize(chunk, max_len, fmt, ap)` stores through `chunk`, also
     behind what its return value covers -/
 def serStores (cfg : Ser.Cfg) (fmt : Ser.Bytes) (args : List Ser.Arg) (maxLen : Nat) : Ser.Bytes :=
   (Ser.serRun cfg maxLen (Ser.serInit cfg fmt args maxLen) (Ser.cstr fmt)).buf.data
+
+/-- `max_len` of the second call of the encoder -/
+def tooLongBound (e : Env) (maxLine : Nat) : Nat :=
+  if e.fixD32 then min BBX_LOG_MAX_LEN maxLine else BBX_LOG_MAX_LEN
 
 /-- outcome of the message part of `_blackbox_vlogger` -/
 structure Msg where
@@ -150,12 +159,14 @@ structure Msg where
         msg_len = qb_vsnprintf_serialize(chunk, QB_LOG_MAX_LEN, "Log message too long …", ap);
     }
     ``` -/
-def serMessage (cfg : Ser.Cfg) (maxLine : Nat) (c : Call) : Msg :=
+def serMessage (e : Env) (maxLine : Nat) (c : Call) : Msg :=
+  let cfg := e.ser
   let r1 := Ser.serialize cfg c.fmt c.args maxLine
   let s1 := ofBytes (serStores cfg c.fmt c.args maxLine)
   if r1.ret ≥ maxLine then
-    let r2 := Ser.serialize cfg TOO_LONG c.args BBX_LOG_MAX_LEN
-    let s2 := ofBytes (serStores cfg TOO_LONG c.args BBX_LOG_MAX_LEN)
+    let bound := tooLongBound e maxLine
+    let r2 := Ser.serialize cfg TOO_LONG c.args bound
+    let s2 := ofBytes (serStores cfg TOO_LONG c.args bound)
     { len := r2.ret, bytes := ofBytes r2.bytes, scratch := s2 ++ s1.drop s2.length }
   else
     { len := r1.ret, bytes := ofBytes r1.bytes, scratch := s1 }
@@ -172,8 +183,8 @@ def recOf (c : Call) (m : Msg) : Rec :=
     msg := m.bytes }
 
 /-- the committed bytes of the record of call `c` under line limit `maxLine` -/
-def record (cfg : Ser.Cfg) (maxLine : Nat) (c : Call) : List Nat :=
-  encodeRecord true (recOf c (serMessage cfg maxLine c))
+def record (e : Env) (maxLine : Nat) (c : Call) : List Nat :=
+  encodeRecord true (recOf c (serMessage e maxLine c))
 
 /-- `_blackbox_vlogger`.  The stores of the C function — the header fields, the first
     serialisation, possibly the second one over it, and finally `msg_len` — are made in two steps
@@ -188,9 +199,9 @@ def vlogger (e : Env) (t : Target) (c : Call) : Target :=
     match rb.alloc (maxSize t c) with
     | (_, some _) => { t with inst := none }
     | (rb1, none) =>
-      let m := serMessage e.ser t.maxLine c
+      let m := serMessage e t.maxLine c
       let rA := rb1.fill (recHead c ++ toLe32 m.len ++ m.scratch)
-      { t with inst := some ((rA.fill (record e.ser t.maxLine c)).commit (actualBase c + m.len)) }
+      { t with inst := some ((rA.fill (record e t.maxLine c)).commit (actualBase c + m.len)) }
 
 /-- a history of logger calls -/
 def logAll (e : Env) (t : Target) : List Call → Target
